@@ -1,0 +1,72 @@
+package server
+
+import (
+	"testing"
+
+	"github.com/XiaoMi/Gaea/parser"
+	"github.com/XiaoMi/Gaea/util"
+	"github.com/stretchr/testify/assert"
+)
+
+// Comments around a statement must not change where it is routed.
+func TestCanExecuteFromSlaveWithComments(t *testing.T) {
+	const (
+		splitUser = "test_executor"   // rw_flag: 2, rw_split: 1
+		writeUser = "test_executor_w" // rw_flag: 2, rw_split: 0
+	)
+	tests := []struct {
+		sql       string
+		user      string
+		fromSlave bool
+	}{
+		{"select * from t where id=1 for update /* trace_id=1 */", splitUser, false},
+		{"select * from t where id=1 lock in share mode -- x", splitUser, false},
+		{"select * from t where id=1 for share skip locked # x", splitUser, false},
+		{"SELECT * FROM t FOR\nUPDATE\t/* a */ /* b */", splitUser, false},
+		{"select * from t where a = 'for update' /* c */", splitUser, true},
+		{"select * from t /*master*/ /* trace_id=1 */", splitUser, false},
+		{"/* trace */ /*master*/ select * from t", splitUser, false},
+		{"select * from t /* master */ /* trace_id=1 */", splitUser, true},
+		{"select\v@@read_only", splitUser, false},
+		{"select\v1", writeUser, false},
+		{"SHOW VARIABLES LIKE 'READ_ONLY'", splitUser, false},
+		{"/*master*/ show tables", splitUser, false},
+		{"show tables /* c */", splitUser, true},
+	}
+	for _, tt := range tests {
+		se, err := newDefaultSessionExecutor(nil)
+		assert.Equal(t, err, nil)
+		se.session.proxy.ServerVersionCompareStatus = util.NewVersionCompareStatus("")
+		se.user = tt.user
+		reqCtx := util.NewRequestContext()
+		reqCtx.SetStmtType(parser.Preview(tt.sql))
+		se.preBuildUnshardPlan(reqCtx, se.db, tt.sql)
+		assert.Equal(t, tt.fromSlave, checkExecuteFromSlave(reqCtx, se, tt.sql), tt.user+": "+tt.sql)
+	}
+}
+
+// The token pre-check must not short-cut statements that mention a sharded table.
+func TestPreBuildUnshardPlanMentionsShardTable(t *testing.T) {
+	tests := []struct {
+		sql       string
+		isUnshard bool
+	}{
+		{"select * from tbl_unshard where id = 1", true},
+		{"select * from TBL_KS", false},
+		{"select * from tbl_unshard, tbl_ks", false},
+		{"select * from tbl_unshard join tbl_ks on 1=1", false},
+		{"select * from (select * from tbl_ks) x", false},
+		{"select * from`tbl_ks`", false},
+		{"insert tbl_ks values (1)", false},
+		{"update TBL_KS set a = 1", false},
+		{"delete a from tbl_unshard a join tbl_ks b on 1=1", false},
+	}
+	for _, tt := range tests {
+		se, err := newDefaultSessionExecutor(nil)
+		assert.Equal(t, err, nil)
+		reqCtx := util.NewRequestContext()
+		reqCtx.SetStmtType(parser.Preview(tt.sql))
+		_, got := se.preBuildUnshardPlan(reqCtx, "db_ks", tt.sql)
+		assert.Equal(t, tt.isUnshard, got, tt.sql)
+	}
+}
